@@ -324,12 +324,9 @@ class Session:
         except (AttributeError, OSError, TypeError):
             wl = 1
         if self.kind in (K_SEND_ALL, K_SEND_ITER) and not wl:
-            # the proposed workaround (meta/fixes/C20_writelines_pause_workaround.diff) re-runs _maybe_pause_protocol()
-            # through set_write_buffer_limits(0) right after writelines(): same effect as a pausing writelines()
-            try:
-                wl = int("set_write_buffer_limits" in inspect.getsource(type(self.adapter).send_all_from_iterable))
-            except (AttributeError, OSError, TypeError):
-                wl = 0
+            # the F6 repair re-runs _maybe_pause_protocol() through set_write_buffer_limits(0) right after writelines():
+            # same effect as a pausing writelines().  Read from the AST (fail closed), not from the text.
+            wl = int(source_params()["stream_iter_rechecks"])
         if self.kind in (K_DGRAM_EP, K_DGRAM_LISTENER):
             wl = 1      # no writelines on datagram transports
         return [high, low, wl]
@@ -553,6 +550,102 @@ def shrink(inp):
         yield [kind, cfg, ntasks, actions[:i] + actions[i + 1:]]
 
 
+# ------------------------------------------------------------------------------------------------ params from the source
+
+def _find_func(path, cls, func):
+    import ast
+
+    from common import runner
+
+    full = os.path.join(runner.REPO, path)
+    try:
+        tree = ast.parse(open(full).read())
+    except (OSError, SyntaxError) as exc:
+        raise runner.TranslateError(f"{path}: {exc}")
+    for node in tree.body:
+        if isinstance(node, ast.ClassDef) and node.name == cls:
+            for sub in node.body:
+                if isinstance(sub, (ast.FunctionDef, ast.AsyncFunctionDef)) and sub.name == func:
+                    return sub
+    raise runner.TranslateError(f"{path}: {cls}.{func} not found")
+
+
+def _transport_calls(fn):
+    """(method name, args) of every call on the asyncio transport (`transport.<m>(..)` / `self.__transport.<m>(..)`),
+    in source order"""
+    import ast
+
+    out = []
+    for node in ast.walk(fn):
+        if isinstance(node, ast.Call) and isinstance(node.func, ast.Attribute):
+            v = node.func.value
+            on_transport = (isinstance(v, ast.Name) and v.id == "transport") or (
+                isinstance(v, ast.Attribute) and isinstance(v.value, ast.Name) and v.value.id == "self"
+                and v.attr in ("__transport", "_transport"))
+            if on_transport:
+                out.append((node.lineno, node.col_offset, node.func.attr, node.args, node.keywords))
+    return [(m, a, k) for _l, _c, m, a, k in sorted(out, key=lambda x: (x[0], x[1]))]
+
+
+def _limits_zero(path, cls, func):
+    """True iff the function calls set_write_buffer_limits(0) on the transport; fail closed on any other argument shape"""
+    import ast
+
+    from common import runner
+
+    found = False
+    for m, args, kws in _transport_calls(_find_func(path, cls, func)):
+        if m == "set_write_buffer_limits":
+            if len(args) == 1 and not kws and isinstance(args[0], ast.Constant) and args[0].value == 0:
+                found = True
+            else:
+                raise runner.TranslateError(f"{cls}.{func}: set_write_buffer_limits called with unrecognised arguments")
+    return found
+
+
+def source_params():
+    from common import runner
+
+    cls = "AsyncioTransportStreamSocketAdapter"
+    stream_zero = _limits_zero(_ST, cls, "__init__")
+    calls = [m for m, _a, _k in _transport_calls(_find_func(_ST, cls, "send_all"))]
+    if calls != ["write"]:
+        raise runner.TranslateError(f"{cls}.send_all: expected exactly transport.write(..), found {calls}")
+    calls = [m for m, _a, _k in _transport_calls(_find_func(_ST, cls, "send_all_from_iterable"))]
+    if calls == ["writelines"]:
+        rechecks = False
+    elif calls == ["writelines", "set_write_buffer_limits"]:
+        rechecks = _limits_zero(_ST, cls, "send_all_from_iterable")
+    else:
+        raise runner.TranslateError(f"{cls}.send_all_from_iterable: unrecognised transport calls {calls}")
+    for path, c, f in ((_DE, "DatagramEndpoint", "sendto"), (_DL, "DatagramListenerSocketAdapter", "send_to")):
+        calls = [m for m, _a, _k in _transport_calls(_find_func(path, c, f))]
+        if calls != ["sendto"]:
+            raise runner.TranslateError(f"{c}.{f}: expected exactly transport.sendto(..), found {calls}")
+    try:
+        import asyncio.selector_events as se
+
+        interp = "_maybe_pause_protocol" in inspect.getsource(se._SelectorSocketTransport.writelines)
+    except (AttributeError, OSError, TypeError) as exc:
+        raise runner.TranslateError(f"cannot read the interpreter's writelines(): {exc}")
+    return dict(stream_limits_zero=stream_zero, stream_iter_rechecks=rechecks,
+                dgram_endpoint_limits_zero=_limits_zero(_DE, "DatagramEndpoint", "__init__"),
+                dgram_listener_limits_zero=_limits_zero(_DL, "DatagramListenerSocketAdapter", "__init__"),
+                interp_writelines_pauses=interp)
+
+
+def params():
+    p = source_params()
+    doc = {
+        "stream_limits_zero": "AsyncioTransportStreamSocketAdapter.__init__ calls transport.set_write_buffer_limits(0)",
+        "stream_iter_rechecks": "send_all_from_iterable calls transport.set_write_buffer_limits(0) right after writelines()",
+        "dgram_endpoint_limits_zero": "DatagramEndpoint.__init__ calls transport.set_write_buffer_limits(0)",
+        "dgram_listener_limits_zero": "DatagramListenerSocketAdapter.__init__ calls transport.set_write_buffer_limits(0)",
+        "interp_writelines_pauses": "this interpreter's _SelectorSocketTransport.writelines() calls _maybe_pause_protocol()",
+    }
+    return "".join(f"(* {doc[k]} *)\nDefinition {k} : bool := {'true' if v else 'false'}.\n" for k, v in p.items())
+
+
 # ------------------------------------------------------------------------------------------------ hypothesis check
 
 def extra(ctx):
@@ -571,6 +664,22 @@ def extra(ctx):
             broken.add(kind)
             ctx.problems.append(dict(kind="hypothesis", detail=f"H_pause does not hold for {KIND_NAMES[kind]}: "
                                      f"write buffer limits (high={high}, low={low}), writelines pauses: {bool(wl)}"))
+    # the configuration derived from the source (Gen/ParamsC20.v, used by the Props lemmas) must be the one observed
+    try:
+        sp = source_params()
+        expect = {K_SEND_ALL: sp["stream_limits_zero"], K_SEND_ITER: sp["stream_limits_zero"],
+                  K_DGRAM_EP: sp["dgram_endpoint_limits_zero"], K_DGRAM_LISTENER: sp["dgram_listener_limits_zero"]}
+        for kind, zero in expect.items():
+            high, low, wl = config_of(kind)
+            if (high == 0 and low == 0) != zero:
+                ctx.problems.append(dict(kind="translator", detail=f"source says limits-zero={zero} for {KIND_NAMES[kind]} "
+                                         f"but the transport reports (high={high}, low={low})"))
+        wl_src = sp["interp_writelines_pauses"] or sp["stream_iter_rechecks"]
+        if bool(config_of(K_SEND_ITER)[2]) != wl_src:
+            ctx.problems.append(dict(kind="translator", detail="source-derived 'writelines path pauses' disagrees with the driver"))
+        report["source_params"] = sp
+    except Exception as exc:   # TranslateError is reported by the runner through params() already
+        report["source_params"] = f"unavailable: {exc}"
     if broken:
         _FOCUS = broken
     return dict(h_pause=report)
